@@ -98,6 +98,7 @@ type PkgContracts struct {
 	ghosts []*GhostVar
 	imports map[string]string // alias -> path (declared with //@ import)
 	macros  map[string]*Macro
+	chans   map[string]*Clause // "pkgpath.Type.field" -> invariant over v
 }
 
 var implRe = regexp.MustCompile(`==>`)
@@ -233,7 +234,7 @@ func parseSpecExpr(text string) (ast.Expr, error) {
 	return e, nil
 }
 
-var kwRe = regexp.MustCompile(`^(macro|gset|func|iface|spec|lemma|ghost|import|requires|ensures|modifies|inline|trusted|noverify|pure|fresh|loop|let|props|opaque|inlines|panics_when|depth|maxpaths|reveal)\b`)
+var kwRe = regexp.MustCompile(`^(macro|chan|gset|func|iface|spec|lemma|ghost|import|requires|ensures|modifies|inline|trusted|noverify|pure|fresh|loop|let|props|opaque|inlines|panics_when|depth|maxpaths|reveal)\b`)
 
 // ParseContractFile extracts contracts from the //@ lines of a file.
 func ParseContractFile(pkgPath, file string, src []byte, pc *PkgContracts) error {
@@ -286,6 +287,18 @@ func ParseContractFile(pkgPath, file string, src []byte, pc *PkgContracts) error
 				}
 			}
 			pc.macros[m[1]] = &Macro{params: ps, body: expandMacros(strings.TrimSpace(m[3]), pc.macros)}
+		case "chan":
+			// chan Type.field invariant <expr over v>
+			f := strings.SplitN(rest, " ", 3)
+			if len(f) != 3 || f[1] != "invariant" {
+				return fmt.Errorf("%s:%d: chan Type.field invariant expr", file, it.line)
+			}
+			c, err := mk("chaninv", f[2])
+			if err != nil {
+				return err
+			}
+			pc.chans[pkgPath+"."+f[0]] = c
+			cur = nil
 		case "import":
 			f := strings.Fields(rest)
 			if len(f) == 2 {
